@@ -57,7 +57,7 @@ impl<'tcx> Cx<'tcx> {
                     DefKind::Ctor(..) => self.tcx.parent(did),
                     _ => did,
                 };
-                J::obj().set("def", J::s(dp(self.tcx, d))).set("dk", J::s(format!("{:?}", kind).split('(').next().unwrap_or("").to_string()))
+                J::obj().set("def", J::s(dp(self.tcx, d))).set("dk", J::s(format!("{:?}", kind).split(|c| c == '(' || c == ' ' || c == '{').next().unwrap_or("").to_string()))
             }
             Res::Local(id) => J::obj().set("local", J::s(self.tcx.hir_name(id).to_string())),
             Res::SelfCtor(_) | Res::SelfTyAlias { .. } | Res::SelfTyParam { .. } => J::obj().set("self", J::Bool(true)),
